@@ -257,6 +257,9 @@ func TestHarness(t *testing.T) {
 			}
 			if has("linkend") {
 				emit(guard("linkend", "json-raw", seed, func() SysRecord { return FamLinkEnd(job.Seed*31 + int64(i)) }))
+				if k := i - job.Params["offset"]; k < 2 {
+					emit(guard("linkend", "json-raw", seed, func() SysRecord { return FamEndInEnum(seed, k) }))
+				}
 			}
 			if has("relay") {
 				switch cfg {
@@ -281,6 +284,15 @@ func TestHarness(t *testing.T) {
 				default:
 					emit(guard("nestedlink", "cborBytesCodec", seed, func() SysRecord { return FamNestedLink(cborBytesCodec(), seed) }))
 				}
+			}
+			if has("closureslong") && i == job.Params["offset"] {
+				emit(guard("closures", "json-raw/message/long", seed, func() SysRecord { return FamClosuresLong(seed, job.Params["long"]) }))
+			}
+			if has("lifecycle") && i == job.Params["offset"] {
+				emit(guard("lifecycle", "json-raw", seed, func() SysRecord { return FamLifecycle(seed, job.Params["rounds"]) }))
+			}
+			if has("sharedhooks") {
+				emit(guard("sharedhooks", "json-raw", seed, func() SysRecord { return FamSharedHooks(seed) }))
 			}
 			if has("enumrace") {
 				emit(guard("enumrace", "json-raw", seed, func() SysRecord { return FamEnumRace(seed) }))
